@@ -35,6 +35,9 @@ def from_data_contract():
         def step(name):
             def f(I2, a, k):
                 ep = k["endpoint"]
+                if isinstance(ep, SObj) and ep.cls is ParseError:
+                    # precondition of the step, checked at the call site: the real function reads Endpoint attributes
+                    I2.raise_(AttributeError, f"Endpoint.{name} called with a ParseError")
                 if I2.branch_free():
                     return STuple([ep, k.get("schemas"), k.get("parameters")]) if name == "add_parameters" else ep
                 err = mk_error()
